@@ -662,3 +662,116 @@ func init() {
 		},
 	}
 }
+
+func init() {
+	props["C07"] = &propDef{
+		ID: "C07",
+		Anchored: []string{"ParseFuncOpts", "handleFuncOpts", "reuseCheckShape", "prepDataVV", "prepDataVS", "prepDataSV", "prepDataUnary", "StdEng).Add", "StdEng).Sub", "StdEng).Mul", "StdEng).Div", "StdEng).AddScalar", "StdEng).SubScalar",
+			"StdEng).Lt", "StdEng).ElEq", "StdEng).Neg", "StdEng).Abs", "StdEng).Square", ").Clone", "UseUnsafe", "WithReuse", "WithIncr", "AsSameType"},
+		Bounds: map[string]interface{}{"modes": "safe, unsafe, reuse, incr, reuse aliasing operand a, reuse aliasing operand b", "operations": "Add/Sub/Mul/Div (tensor-tensor, tensor-scalar, scalar-tensor), 6 comparisons (bool / same-type / unsafe / reuse variants), Neg/Abs/Square/Sqrt/Clamp/Sign/Inv/Cube",
+			"layouts": "operand layouts {C,T,S,SS,M} (pairs), destination layouts {contiguous, sliced view}", "dtypes": "float64, int, int8, complex128, float32, uint16 (rotating)", "elements": "all operands, reuse and incr tensors symbolic",
+			"view_destinations": "a non-contiguous view as reuse/incr destination may be refused with an error; then nothing may be modified (asserted)", "zero_divisors": "assumed away in non-safe modes (decided in C06)"},
+		Instances: func(tier string, seed int64) []Instance {
+			var out []Instance
+			sh := []int{2, 3}
+			modes := []string{"", "unsafe", "reuse", "incr", "reuseA", "reuseB"}
+			dts := []string{"float64", "int", "int8", "complex128", "float32", "uint16"}
+			n := 0
+			for _, op := range []string{"Add", "Sub", "Mul", "Div"} {
+				for fi, form := range []string{"TT", "TS", "ST"} {
+					for i, la := range opndLayouts {
+						for j, lb := range opndLayouts {
+							if form != "TT" && j > 0 {
+								continue
+							}
+							for mi, mode := range modes {
+								for li, ld := range []string{"C", "S", "T"} {
+									n++
+									if (mode == "" || mode == "unsafe" || mode == "reuseA" || mode == "reuseB") && li > 0 {
+										continue
+									}
+									if tier == "quick" && form == "TT" && (i+j+mi+fi+li)%3 != 0 {
+										continue
+									}
+									dt := dts[n%len(dts)]
+									out = append(out, mkInst("vhC06Bin", map[string]interface{}{"dtype": dt, "op": op, "form": form, "shape": sh, "la": la, "lb": lb, "api": []string{"func", "method"}[n%2], "mode": mode, "ld": ld},
+										"dtype", "op", "form", "la", "lb", "api", "mode", "ld"))
+								}
+							}
+						}
+					}
+				}
+			}
+			variants := []string{"bool", "same", "unsafe", "reuse-bool", "reuse-same"}
+			for oi, op := range cmpOps {
+				for fi, form := range []string{"TT", "TS", "ST"} {
+					for i, la := range opndLayouts {
+						for j, lb := range opndLayouts {
+							if form != "TT" && j > 0 {
+								continue
+							}
+							for vi, v := range variants {
+								n++
+								if tier == "quick" && (i+j+vi+oi+fi)%4 != 0 {
+									continue
+								}
+								ld := []string{"C", "S", "T"}[n%3]
+								out = append(out, mkInst("vhC11Cmp", map[string]interface{}{"dtype": []string{"float64", "int", "int8", "uint16"}[n%4], "op": op, "form": form, "shape": sh, "la": la, "lb": lb, "api": []string{"func", "method"}[n%2], "variant": v, "ld": ld},
+									"dtype", "op", "form", "la", "lb", "api", "variant", "ld"))
+							}
+						}
+					}
+				}
+			}
+			for _, op := range []string{"Neg", "Abs", "Square", "Sqrt", "Clamp", "Sign", "Inv", "Cube"} {
+				for _, la := range opndLayouts {
+					for _, mode := range []string{"", "unsafe", "reuse", "incr", "reuseA"} {
+						for li, ld := range []string{"C", "S", "T"} {
+							if (mode == "" || mode == "unsafe" || mode == "reuseA") && li > 0 {
+								continue
+							}
+							n++
+							out = append(out, mkInst("vhC12Unary", map[string]interface{}{"dtype": []string{"float64", "float32", "int", "int8"}[n%4], "op": op, "shape": sh, "la": la, "mode": mode, "ld": ld}, "dtype", "op", "la", "mode", "ld"))
+						}
+					}
+				}
+			}
+			// one-element tensors take dedicated dispatch paths in every *Scalar method
+			for _, one := range [][]int{{1}, {1, 1}, {}} {
+				for _, op := range []string{"Add", "Sub", "Mul", "Div"} {
+					for _, form := range []string{"TT", "TS", "ST"} {
+						for _, mode := range []string{"", "unsafe", "reuse", "incr"} {
+							n++
+							out = append(out, mkInst("vhC06Bin", map[string]interface{}{"dtype": dts[n%len(dts)], "op": op, "form": form, "shape": one, "la": "C", "lb": "C", "api": []string{"func", "method"}[n%2], "mode": mode, "ld": "C"},
+								"dtype", "op", "form", "shape", "api", "mode"))
+						}
+					}
+				}
+				for _, op := range cmpOps {
+					for _, form := range []string{"TT", "TS", "ST"} {
+						for _, v := range variants {
+							n++
+							out = append(out, mkInst("vhC11Cmp", map[string]interface{}{"dtype": []string{"float64", "int", "int8", "uint16"}[n%4], "op": op, "form": form, "shape": one, "la": "C", "lb": "C", "api": []string{"func", "method"}[n%2], "variant": v, "ld": "C"},
+								"dtype", "op", "form", "shape", "api", "variant"))
+						}
+					}
+				}
+			}
+			// drop instances whose dtype the operation does not accept (refusal is C06/C11/C12's subject)
+			var keep []Instance
+			for _, in := range out {
+				op, _ := in.Cfg["op"].(string)
+				dt, _ := in.Cfg["dtype"].(string)
+				if in.Harness == "vhC12Unary" {
+					isF := dt == "float64" || dt == "float32"
+					if (op == "Sqrt") && !isF {
+						in.Cfg["dtype"] = "float64"
+						in.Name = strings.Replace(in.Name, "/"+dt+"/", "/float64/", 1)
+					}
+				}
+				keep = append(keep, in)
+			}
+			return keep
+		},
+	}
+}
